@@ -2,6 +2,7 @@ use crate::orch::Property;
 
 pub mod c04;
 pub mod c05;
+pub mod c06;
 pub mod c07;
 pub mod c08;
 pub mod c09;
@@ -15,6 +16,7 @@ pub mod c16;
 pub mod c17;
 pub mod c18;
 pub mod c19;
+pub mod c20;
 pub mod sweep;
 
 pub fn lookup(id: &str) -> Box<dyn Property> {
@@ -24,6 +26,7 @@ pub fn lookup(id: &str) -> Box<dyn Property> {
         "C03" => Box::new(sweep::Sweep::new(sweep::Which::C03)),
         "C04" => Box::new(c04::C04),
         "C05" => Box::new(c05::C05),
+        "C06" => Box::new(c06::C06),
         "C07" => Box::new(c07::C07),
         "C08" => Box::new(c08::C08),
         "C09" => Box::new(c09::C09),
@@ -37,6 +40,7 @@ pub fn lookup(id: &str) -> Box<dyn Property> {
         "C17" => Box::new(c17::C17),
         "C18" => Box::new(c18::C18),
         "C19" => Box::new(c19::C19),
+        "C20" => Box::new(c20::C20),
         _ => panic!("unknown property {id}"),
     }
 }
